@@ -261,6 +261,17 @@ static ares_socket_t s_socket(int domain, int type, int, void *ud)
   }
   auto s         = std::make_unique<VSock>();
   s->fd          = w->next_fd++;
+  if (w->cfg->reuse_fds) {
+    // lowest descriptor number that is not open right now
+    int fd = 10;
+    for (bool taken = true; taken; fd += taken ? 1 : 0) {
+      taken = false;
+      for (auto &x : w->socks)
+        if (x->open && x->fd == fd) taken = true;
+    }
+    s->fd = fd;
+    w->next_fd--;
+  }
   s->family      = domain;
   s->tcp         = type == SOCK_STREAM;
   s->created_seq = (int)w->socks.size();
@@ -554,6 +565,7 @@ void World::record_tx(VSock &s, const Bytes &msg)
   Transmission t;
   t.id     = (int)txs.size();
   t.fd     = s.fd;
+  t.sock_serial = s.created_seq;
   t.server = s.server;
   t.tcp    = s.tcp;
   t.msg    = msg;
@@ -1409,8 +1421,7 @@ std::vector<int> World::answerable_txs() const
   for (auto &t : txs) {
     if (t.answered) continue;
     const VSock *s = nullptr;
-    for (auto &x : socks)
-      if (x->fd == t.fd) s = x.get();
+    s = const_cast<World *>(this)->sock_of(t);
     if (!s || !s->open || !t.q.ok || t.q.q.empty()) continue;
     if (s->tcp && (s->peer_closed || s->reset)) continue;
     v.push_back(t.id);
@@ -1575,7 +1586,7 @@ void World::inject(int txid, int kind, bool forged, int mutation)
 {
   if (txid < 0 || txid >= (int)txs.size()) return;
   Transmission &tx = txs[(size_t)txid];
-  VSock        *s  = sock(tx.fd);
+  VSock        *s  = sock_of(tx);
   if (!s || !s->open) return;
   Packet pk;
   pk.serial     = (int)packets.size() + 1;
